@@ -282,6 +282,7 @@ type stub struct {
 	rpcc       *ttrpc.Client
 	runtime    api.RuntimeService
 	started    bool
+	session    uint64
 	doneC      chan struct{}
 	srvErrC    chan error
 	cfgErrC    chan error
@@ -290,6 +291,9 @@ type stub struct {
 	registrationTimeout time.Duration
 	requestTimeout      time.Duration
 }
+
+// cfgErrKey is the context key for the configuration result channel of a connection.
+type cfgErrKey struct{}
 
 // Handlers for NRI plugin event and request.
 type handlers struct {
@@ -358,6 +362,19 @@ func (stub *stub) Start(ctx context.Context) (retErr error) {
 	if err != nil {
 		return err
 	}
+	defer func() {
+		if retErr != nil {
+			// Forget the failed (and by now closed) connection, so that
+			// the next Start() establishes a new one.
+			stub.conn = nil
+		}
+	}()
+
+	// Identify this connection attempt, so that a late close notification
+	// of an earlier connection can be told apart from one of this.
+	stub.session++
+	session := stub.session
+	closedC := make(chan struct{})
 
 	rpcm := multiplex.Multiplex(stub.conn)
 	defer func() {
@@ -398,7 +415,8 @@ func (stub *stub) Start(ctx context.Context) (retErr error) {
 
 	clientOpts := []ttrpc.ClientOpts{
 		ttrpc.WithOnClose(func() {
-			stub.connClosed()
+			close(closedC)
+			stub.connClosed(session)
 		}),
 	}
 	rpcc := ttrpc.NewClient(conn, append(clientOpts, stub.clientOpts...)...)
@@ -412,8 +430,11 @@ func (stub *stub) Start(ctx context.Context) (retErr error) {
 	stub.srvErrC = make(chan error, 1)
 	stub.cfgErrC = make(chan error, 1)
 
+	// Requests served for this connection report the result of configuration
+	// to this Start(), not to whichever one is waiting by then.
+	srvCtx := context.WithValue(ctx, cfgErrKey{}, stub.cfgErrC)
 	go func(l stdnet.Listener, doneC chan struct{}, srvErrC chan error) {
-		srvErrC <- rpcs.Serve(ctx, l)
+		srvErrC <- rpcs.Serve(srvCtx, l)
 		close(doneC)
 	}(rpcl, stub.doneC, stub.srvErrC)
 
@@ -429,7 +450,18 @@ func (stub *stub) Start(ctx context.Context) (retErr error) {
 		return err
 	}
 
-	if err = <-stub.cfgErrC; err != nil {
+	// Wait for the result of configuration, but give up if the connection
+	// is lost before we get configured.
+	select {
+	case err = <-stub.cfgErrC:
+	case <-closedC:
+		select {
+		case err = <-stub.cfgErrC:
+		default:
+			err = fmt.Errorf("connection to NRI/Runtime lost before plugin got configured")
+		}
+	}
+	if err != nil {
 		return err
 	}
 
@@ -576,9 +608,13 @@ func (stub *stub) register(ctx context.Context) error {
 }
 
 // Handle a lost connection.
-func (stub *stub) connClosed() {
+func (stub *stub) connClosed(session uint64) {
 	stub.Lock()
-	stub.close()
+	// A late notification about an earlier connection must not
+	// tear down the one we have established since.
+	if session == stub.session {
+		stub.close()
+	}
 	stub.Unlock()
 	if stub.onClose != nil {
 		stub.onClose()
@@ -622,8 +658,12 @@ func (stub *stub) Configure(ctx context.Context, req *api.ConfigureRequest) (rpl
 	stub.registrationTimeout = time.Duration(req.RegistrationTimeout * int64(time.Millisecond))
 	stub.requestTimeout = time.Duration(req.RequestTimeout * int64(time.Millisecond))
 
+	cfgErrC, ok := ctx.Value(cfgErrKey{}).(chan error)
+	if !ok {
+		cfgErrC = stub.cfgErrC
+	}
 	defer func() {
-		stub.cfgErrC <- retErr
+		cfgErrC <- retErr
 	}()
 
 	if handler := stub.handlers.Configure; handler == nil {
